@@ -97,11 +97,12 @@ COMPONENTS = {
     'C17': [('containers', 'check_containers.py')],
     'C18': [('derive', 'check_derive.py')],
     'C19': [('threads', 'check_threads.py')],
-    'C15': [('leaf', 'leafcheck.py')],
+    'C15': [('leaf', 'leafcheck.py'), ('contexts', 'check_contexts.py')],
     'C16': [('leaf', 'leafcheck.py'), ('limits', 'check_limits.py')],
     'C09': [('limits', 'check_limits.py')],
     'C02': [('contexts', 'check_contexts.py'), ('containers', 'check_containers.py')],
     'C05': [('containers', 'check_containers.py')],
+    'C01': [('containers', 'check_containers.py')],
     'C04': [('threads', 'check_threads.py')],
     'C12': [('leaf', 'leafcheck.py')],
 }
